@@ -853,7 +853,7 @@ pub fn run(args: &Args) -> i32 {
         args,
         "exploration",
         "setup ladder of MemWAL generations on 1-2 regions, then 2-3 actors with scripts of 1-3 MemWAL operations (advance/append entry/seal/flush/mark merged/owner change/trim/merge_insert+mark merged/table append) under {every actor order, uniform, PCT, round robin}; non-trivial iff two transactions of different actors committed concurrently or an op failed with a conflict; distinct = hash(ops, read versions, results, released storage-call sequence)",
-        (50, 900),
+        (75, 900),
     )
     .with_min_nontrivial(50);
     let max_cases = args.tier.pick(6_000, 300_000);
